@@ -51,6 +51,26 @@ def liftCode (s : RS) : Except RErr ((Str × Bool) × List Str) → Except RErr 
   | .error e => .error e
   | .ok ((lb, c), items) => .ok ({ s with linebuffer := lb, continued := c }, items)
 
+theorem flush_nodocs (m : Marks) (p : List Str) (pd : Bool) (hp : p ≠ []) :
+    flush m p [] pd = (p, false) := by
+  cases p with
+  | nil => exact absurd rfl hp
+  | cons a as => rfl
+
+/-- the tail of an iteration on a quiet state -/
+theorem feedTail_quiet (m : Marks) (cont : Bool) (lb l : Str) :
+    feedTail m { continued := cont, linebuffer := lb } l =
+      liftCode { continued := cont, linebuffer := lb } (tailC lb cont l) := by
+  simp only [feedTail, tailC, liftCode, gt_iff_lt, Nat.lt_irrefl, ↓reduceIte]
+  generalize List.map strip (List.filter (fun f => !List.isEmpty f) (quoteSplit ';' (lb ++ l))) = items
+  by_cases hlb : (lb ++ l).isEmpty = true
+  · cases cont <;> simp [hlb]
+  · cases cont
+    · cases items with
+      | nil => simp [hlb]
+      | cons a as => simp [hlb, flush]
+    · simp [hlb]
+
 theorem feed_eq_feedCode (m : Marks) (s : RS) (line : Str) (hq : Quiet s)
     (hn : NoDoc m (unterminated s.linebuffer) line) :
     feed m s line = liftCode s (feedCode s.linebuffer s.continued (codeOf (unterminated s.linebuffer) line)) := by
@@ -59,6 +79,352 @@ theorem feed_eq_feedCode (m : Marks) (s : RS) (line : Str) (hq : Quiet s)
   obtain ⟨db, pd, ra, cont, rp, rpa, lb⟩ := s
   simp only at hd hp ha hr hra h1 h2 h3 h4
   subst hd hp ha hr hra
-  sorry
+  have h0' : (firstStripped line == some '#') = false := by
+    simpa using h0
+  have key : ∀ c : Str,
+      (match c with
+        | [] => feedTail m { continued := cont, linebuffer := lb } []
+        | x :: rest =>
+          if (x == '&') = true then
+            if cont = true then
+              if isBlank rest = true then Except.ok ({ continued := cont, linebuffer := lb }, [])
+              else
+                match if rest.getLast? == some '&' then
+                    (({ continued := true, linebuffer := lb } : RS), rest.dropLast)
+                  else ({ continued := false, linebuffer := lb }, rest) with
+                | (s, line) => feedTail m s line
+            else if rest.isEmpty = true then Except.ok ({ continued := cont, linebuffer := lb }, [])
+            else Except.error RErr.ampStart
+          else
+            match if (x :: rest).getLast? == some '&' then
+                (({ continued := true, linebuffer := strip lb ++ [' '] } : RS), (x :: rest).dropLast)
+              else ({ continued := false, linebuffer := strip lb ++ [' '] }, x :: rest) with
+            | (s, line) => feedTail m s line) =
+      liftCode { continued := cont, linebuffer := lb } (feedCode lb cont c) := by
+    intro c
+    cases c with
+    | nil => simp [feedCode, feedTail_quiet]
+    | cons x rest =>
+      simp only [feedCode, splitAmp]
+      by_cases hx : (x == '&') = true
+      · cases cont
+        · by_cases hr : rest.isEmpty = true <;> simp [hx, hr, liftCode]
+        · by_cases hb : isBlank rest = true
+          · simp [hx, hb, liftCode]
+          · by_cases hl : rest.getLast? == some '&' <;>
+              simp [hx, hb, hl, feedTail_quiet, liftCode] <;> rfl
+      · by_cases hl : (x :: rest).getLast? == some '&' <;>
+          simp [hx, hl, feedTail_quiet, liftCode] <;> rfl
+  cases hm : matchCom line (unterminated lb) with
+  | none =>
+    simp only [feed, h1, h2, h3, h4, h0', hm, codeOf, Bool.false_eq_true, ↓reduceIte, ite_self]
+    exact key (strip line)
+  | some i =>
+    simp only [feed, h1, h2, h3, h4, h0', hm, codeOf, Bool.false_eq_true, ↓reduceIte, ite_self]
+    simp only [gt_iff_lt, Nat.lt_irrefl, Nat.not_lt_zero, decide_false, Bool.or_self, Bool.false_and,
+      Bool.false_eq_true, ↓reduceIte]
+    exact key (strip (List.take i line))
+
+end Ford
+
+namespace Ford
+
+/-! ### Continuation groups at the level of code parts -/
+
+/-- what a completed logical line `J` emits -/
+def itemsOf (J : Str) : List Str := ((quoteSplit ';' J).filter (fun f => !f.isEmpty)).map strip
+
+/-- a physical line inside a continued statement, after comment removal and stripping -/
+inductive Mid
+  | blank                       -- blank or comment-only line
+  | ampOnly (ws : Str)          -- `&` alone
+  | cont (lead : Bool) (b : Str) -- `[&] b &`
+  deriving Repr
+
+def Mid.code : Mid → Str
+  | .blank => []
+  | .ampOnly ws => '&' :: ws
+  | .cont true b => '&' :: (b ++ ['&'])
+  | .cont false b => b ++ ['&']
+
+/-- effect on the joined text -/
+def Mid.join (J : Str) : Mid → Str
+  | .blank => J
+  | .ampOnly _ => J
+  | .cont true b => J ++ b
+  | .cont false b => strip J ++ ' ' :: b
+
+def Mid.wf : Mid → Prop
+  | .blank => True
+  | .ampOnly ws => isBlank ws = true
+  | .cont true _ => True
+  | .cont false b => ∃ x r, b = x :: r ∧ x ≠ '&'
+
+theorem getLast_append_amp (b : Str) : (b ++ ['&']).getLast? = some '&' := by simp
+
+theorem getLast_cons_append_amp (x : Char) (r : Str) : (x :: (r ++ ['&'])).getLast? = some '&' := by
+  have h : x :: (r ++ ['&']) = (x :: r) ++ ['&'] := rfl
+  rw [h, List.getLast?_append]; simp
+
+theorem dropLast_cons_append_amp (x : Char) (r : Str) : (x :: (r ++ ['&'])).dropLast = x :: r := by
+  have h : x :: (r ++ ['&']) = (x :: r) ++ ['&'] := rfl
+  rw [h, List.dropLast_concat]
+
+theorem isBlank_append_amp (b : Str) : isBlank (b ++ ['&']) = false := by
+  simp [isBlank, isSpace]
+
+theorem feedCode_mid (J : Str) (mid : Mid) (h : mid.wf) :
+    feedCode J true mid.code = .ok ((mid.join J, true), []) := by
+  cases mid with
+  | blank => simp [Mid.code, Mid.join, feedCode, tailC]
+  | ampOnly ws =>
+    simp only [Mid.wf] at h
+    simp [Mid.code, Mid.join, feedCode, h]
+  | cont lead b =>
+    cases lead with
+    | true =>
+      simp [Mid.code, Mid.join, feedCode, tailC, splitAmp, isBlank_append_amp]
+    | false =>
+      obtain ⟨x, r, hb, hx⟩ := h
+      subst hb
+      have hx' : (x == '&') = false := by simp [hx]
+      simp [Mid.code, Mid.join, feedCode, tailC, splitAmp, hx', getLast_cons_append_amp,
+        dropLast_cons_append_amp]
+
+/-- fold of `feedCode` over the code parts of consecutive lines -/
+def runCode : (Str × Bool) → List Str → Except RErr ((Str × Bool) × List Str)
+  | st, [] => .ok (st, [])
+  | (lb, c), l :: ls =>
+    match feedCode lb c l with
+    | .error e => .error e
+    | .ok (st', items) =>
+      match runCode st' ls with
+      | .error e => .error e
+      | .ok (st'', more) => .ok (st'', items ++ more)
+
+theorem runCode_mids (J : Str) (mids : List Mid) (rest : List Str) (h : ∀ m ∈ mids, m.wf) :
+    runCode (J, true) (mids.map Mid.code ++ rest) = runCode (mids.foldl Mid.join J, true) rest := by
+  induction mids generalizing J with
+  | nil => rfl
+  | cons mid ms ih =>
+    simp only [List.map_cons, List.cons_append, runCode, List.foldl_cons]
+    rw [feedCode_mid J mid (h mid (by simp))]
+    simp only [List.nil_append]
+    rw [ih (mid.join J) (fun m hm => h m (by simp [hm]))]
+    cases runCode (List.foldl Mid.join (mid.join J) ms, true) rest with
+    | error e => rfl
+    | ok r => rfl
+
+/-- the first line of a continued statement: `b &`, `b` not starting with `&` -/
+theorem feedCode_first (x : Char) (r : Str) (hx : x ≠ '&') :
+    feedCode [] false (x :: r ++ ['&']) = .ok (((' ' :: x :: r), true), []) := by
+  have hx' : (x == '&') = false := by simp [hx]
+  simp [feedCode, tailC, splitAmp, hx', strip, rstrip, lstrip, getLast_cons_append_amp,
+    dropLast_cons_append_amp]
+
+/-- the last line of a continued statement: `[&] b` with `b` not ending in `&` -/
+def lastCode (lead : Bool) (b : Str) : Str := if lead then '&' :: b else b
+
+theorem feedCode_last (J : Str) (lead : Bool) (b : Str) (hne : isBlank b = false)
+    (hl : b.getLast? ≠ some '&') (hh : lead = false → ∃ x r, b = x :: r ∧ x ≠ '&')
+    (hJ : itemsOf (Mid.join J (.cont lead b)) ≠ []) :
+    feedCode J true (lastCode lead b) =
+      .ok (([], false), itemsOf (Mid.join J (.cont lead b))) := by
+  have hbne : b ≠ [] := by
+    intro h; subst h; simp [isBlank] at hne
+  cases lead with
+  | true =>
+    have hl' : (b.getLast? == some '&') = false := by simpa using hl
+    have hne2 : (J ++ b).isEmpty = false := by
+      cases J <;> cases b <;> simp_all
+    simp only [lastCode, ↓reduceIte, feedCode, beq_self_eq_true, hne, Bool.false_eq_true, splitAmp, hl',
+      tailC, Mid.join]
+    simp only [hne2, Bool.not_false, Bool.and_self, ↓reduceIte]
+    have : (itemsOf (J ++ b)).isEmpty = false := by
+      simpa [Mid.join] using hJ
+    simp only [itemsOf] at this ⊢
+    simp [this]
+  | false =>
+    obtain ⟨x, r, hb, hx⟩ := hh rfl
+    subst hb
+    have hx' : (x == '&') = false := by simp [hx]
+    have hl' : ((x :: r).getLast? == some '&') = false := by simpa using hl
+    have : (itemsOf (strip J ++ ' ' :: x :: r)).isEmpty = false := by
+      simpa [Mid.join] using hJ
+    simp only [itemsOf] at this
+    simp [lastCode, feedCode, hx', splitAmp, hl', tailC, Mid.join, itemsOf, this]
+
+end Ford
+
+namespace Ford
+
+/-! ### Continuation groups at the level of physical lines -/
+
+/-- a quiet reader state with the given buffer and continuation flag -/
+def qs (lb : Str) (c : Bool) : RS := { continued := c, linebuffer := lb }
+
+theorem quiet_qs (lb : Str) (c : Bool) : Quiet (qs lb c) := by simp [Quiet, qs]
+
+theorem readFrom_step (m : Marks) (s s' : RS) (l : Str) (ls : List Str) (items : List Str)
+    (h : feed m s l = .ok (s', items)) :
+    readFrom m s (l :: ls) =
+      match readFrom m s' ls with
+      | .error e => .error e
+      | .ok more => .ok (items ++ more) := by
+  simp only [readFrom, h]
+  cases readFrom m s' ls <;> rfl
+
+/-- the physical lines `lines` are the layout `mids` of a statement continued from `J`:
+    each line carries no doc comment, and its code part - under the lexical state the
+    reader is in at that point - is the intended one -/
+def Rendered (m : Marks) : Str → List Mid → List Str → Prop
+  | _, [], [] => True
+  | J, mid :: ms, l :: ls =>
+    NoDoc m (unterminated J) l ∧ codeOf (unterminated J) l = mid.code ∧ mid.wf ∧
+      Rendered m (mid.join J) ms ls
+  | _, _, _ => False
+
+theorem readFrom_mids (m : Marks) (J : Str) (mids : List Mid) (lines rest : List Str)
+    (h : Rendered m J mids lines) :
+    readFrom m (qs J true) (lines ++ rest) = readFrom m (qs (mids.foldl Mid.join J) true) rest := by
+  induction mids generalizing J lines with
+  | nil =>
+    cases lines with
+    | nil => rfl
+    | cons l ls => simp [Rendered] at h
+  | cons mid ms ih =>
+    cases lines with
+    | nil => simp [Rendered] at h
+    | cons l ls =>
+      obtain ⟨hn, hc, hw, hr⟩ := h
+      have hf : feed m (qs J true) l = .ok (qs (mid.join J) true, []) := by
+        rw [feed_eq_feedCode m (qs J true) l (quiet_qs J true) (by simpa [qs] using hn)]
+        simp only [qs] at hc ⊢
+        rw [hc, feedCode_mid J mid hw]
+        rfl
+      simp only [List.cons_append, List.foldl_cons]
+      rw [readFrom_step m _ _ l _ [] hf, ih (mid.join J) ls hr]
+      cases readFrom m (qs (List.foldl Mid.join (mid.join J) ms) true) rest <;> rfl
+
+/-- **Continuation join.**  A statement laid out over any number of physical lines -
+    first line `b0 &`, then any mixture of blank lines, comment lines, `&`-only lines
+    and continuation lines `[&] b &`, then a last line `[&] bn` - is read as the single
+    logical line obtained by joining the pieces (a leading `&` joins directly, its
+    absence joins with one blank), and is then split at the `;` outside literals. -/
+theorem continuation_join (m : Marks) (l0 : Str) (x : Char) (r : Str) (mids : List Mid)
+    (lines : List Str) (ln : Str) (lead : Bool) (b : Str) (rest : List Str)
+    (h0 : NoDoc m false l0) (hc0 : codeOf false l0 = x :: r ++ ['&']) (hx : x ≠ '&')
+    (hr : Rendered m (' ' :: x :: r) mids lines)
+    (hn : NoDoc m (unterminated (mids.foldl Mid.join (' ' :: x :: r))) ln)
+    (hcn : codeOf (unterminated (mids.foldl Mid.join (' ' :: x :: r))) ln = lastCode lead b)
+    (hb : isBlank b = false) (hl : b.getLast? ≠ some '&')
+    (hh : lead = false → ∃ y t, b = y :: t ∧ y ≠ '&')
+    (hJ : itemsOf (Mid.join (mids.foldl Mid.join (' ' :: x :: r)) (.cont lead b)) ≠ []) :
+    readFrom m (qs [] false) (l0 :: lines ++ ln :: rest) =
+      match readFrom m (qs [] false) rest with
+      | .error e => .error e
+      | .ok more =>
+        .ok (itemsOf (Mid.join (mids.foldl Mid.join (' ' :: x :: r)) (.cont lead b)) ++ more) := by
+  have hu : unterminated ([] : Str) = false := by decide
+  have hf0 : feed m (qs [] false) l0 = .ok (qs (' ' :: x :: r) true, []) := by
+    rw [feed_eq_feedCode m (qs [] false) l0 (quiet_qs _ _) (by simpa [qs, hu] using h0)]
+    simp only [qs, hu, hc0]
+    rw [feedCode_first x r hx]
+    rfl
+  have hfn : feed m (qs (mids.foldl Mid.join (' ' :: x :: r)) true) ln =
+      .ok (qs [] false, itemsOf (Mid.join (mids.foldl Mid.join (' ' :: x :: r)) (.cont lead b))) := by
+    rw [feed_eq_feedCode m _ ln (quiet_qs _ _) (by simpa [qs] using hn)]
+    simp only [qs] at hcn ⊢
+    rw [hcn, feedCode_last _ lead b hb hl hh hJ]
+    rfl
+  rw [List.cons_append, readFrom_step m _ _ l0 _ [] hf0, readFrom_mids m _ mids lines (ln :: rest) hr,
+    readFrom_step m _ _ ln rest _ hfn]
+  cases readFrom m (qs [] false) rest <;> rfl
+
+end Ford
+
+namespace Ford
+
+/-! ### Lexical side: the code part of a rendered physical line -/
+
+theorem comScanAux_atoms_none (mark p : Str) (k : Nat) (hp : Atoms p) :
+    comScanAux mark p .out k = none := by
+  induction hp generalizing k with
+  | nil => simp [comScanAux]
+  | plain c rest hq hb _ ih =>
+    have : (c == '!') = false := by simp [hb]
+    simp [comScanAux, this, hq, ih (k + 1)]
+  | quoted q body rest hq hnot _ ih =>
+    have hb : (q == '!') = false := by
+      simp [isQuote] at hq; rcases hq with h | h <;> simp [h]
+    simp only [List.cons_append, comScanAux, hb, hq]
+    simp only [Bool.false_eq_true, ↓reduceIte]
+    rw [comScanAux_inq_skip mark q body _ _ hnot, ih]
+
+theorem comScanAux_inq_open (mark : Str) (q : Char) (body : Str) (k : Nat) (h : q ∉ body) :
+    comScanAux mark body (.inq q) k = none := by
+  induction body generalizing k with
+  | nil => simp [comScanAux]
+  | cons b bs ih =>
+    have hb : (b == q) = false := by
+      simp at h; simp [Ne.symm h.1]
+    have hq : q ∉ bs := by simp at h; exact h.2
+    simp [comScanAux, hb, ih (k + 1) hq]
+
+/-- closed literals then an unterminated one: no comment can start on this line -/
+theorem comScanAux_atoms_open_none (mark p : Str) (q : Char) (body : Str) (k : Nat) (hp : Atoms p)
+    (hq : isQuote q = true) (hb : q ∉ body) :
+    comScanAux mark (p ++ q :: body) .out k = none := by
+  induction hp generalizing k with
+  | nil =>
+    have hbang : (q == '!') = false := by
+      simp [isQuote] at hq; rcases hq with h | h <;> simp [h]
+    simp [comScanAux, hbang, hq, comScanAux_inq_open mark q body _ hb]
+  | plain c rest hqc hbc _ ih =>
+    have : (c == '!') = false := by simp [hbc]
+    simp [comScanAux, this, hqc, ih (k + 1)]
+  | quoted q' body' rest hq' hnot _ ih =>
+    have hb' : (q' == '!') = false := by
+      simp [isQuote] at hq'; rcases hq' with h | h <;> simp [h]
+    simp only [List.cons_append, List.append_assoc, comScanAux, hb', hq']
+    simp only [Bool.false_eq_true, ↓reduceIte]
+    rw [comScanAux_inq_skip mark q' body' _ _ hnot, ih]
+
+/-- a line that starts outside a literal: everything from the first `!` outside the
+    (closed) literals on is dropped -/
+theorem codeOf_outside_comment (p cmt : Str) (hp : Atoms p) :
+    codeOf false (p ++ '!' :: cmt) = strip p := by
+  have h := comScanAux_of_atoms [] p cmt 0 hp
+  simp only [startsWith, ↓reduceIte, Nat.zero_add] at h
+  simp [codeOf, matchCom, comScan, h]
+
+/-- ... a line without such a `!` is kept whole -/
+theorem codeOf_outside_plain (p : Str) (hp : Atoms p) : codeOf false p = strip p := by
+  simp [codeOf, matchCom, comScan, comScanAux_atoms_none [] p 0 hp]
+
+/-- ... also when it ends inside a literal that the next line continues -/
+theorem codeOf_outside_open (p : Str) (q : Char) (body : Str) (hp : Atoms p)
+    (hq : isQuote q = true) (hb : q ∉ body) : codeOf false (p ++ q :: body) = strip (p ++ q :: body) := by
+  simp [codeOf, matchCom, comScan, comScanAux_atoms_open_none [] p q body 0 hp hq hb]
+
+/-- a line that starts inside a continued literal is taken whole -/
+theorem codeOf_inside (l : Str) : codeOf true l = strip l := by
+  simp [codeOf, matchCom]
+
+theorem noDoc_inside (m : Marks) (l : Str) (h : firstStripped l ≠ some '#') : NoDoc m true l := by
+  simp [NoDoc, matchDocmark, h]
+
+theorem matchDocmark_comment (mark p cmt : Str) (hp : Atoms p) (hm : startsWith cmt mark = false) :
+    matchDocmark mark (p ++ '!' :: cmt) false = none := by
+  have h := comScanAux_of_atoms mark p cmt 0 hp
+  simp only [hm, Bool.false_eq_true, ↓reduceIte] at h
+  simp [matchDocmark, comScan, h]
+
+theorem matchDocmark_plain (mark p : Str) (hp : Atoms p) : matchDocmark mark p false = none := by
+  simp [matchDocmark, comScan, comScanAux_atoms_none mark p 0 hp]
+
+theorem matchDocmark_open (mark p : Str) (q : Char) (body : Str) (hp : Atoms p)
+    (hq : isQuote q = true) (hb : q ∉ body) : matchDocmark mark (p ++ q :: body) false = none := by
+  simp [matchDocmark, comScan, comScanAux_atoms_open_none mark p q body 0 hp hq hb]
 
 end Ford
